@@ -1,3 +1,5 @@
+//go:build !c02s_sanonly
+
 package main
 
 import (
